@@ -28,8 +28,55 @@ fn outside_braces(text: &str) -> Vec<usize> {
     v
 }
 
+/// call-notation soup: calls with two or three arguments nested in either argument, operands with a
+/// leading binary operator, redundant parentheses
+fn call_soup(r: &mut Rng, t: &[OpCfg], depth: usize) -> String {
+    let bins: Vec<&OpCfg> = t.iter().filter(|c| c.bin.is_some()).collect();
+    let operand = |r: &mut Rng| -> String {
+        let lead = if r.chance(1, 4) { bins[r.below(bins.len())].name.clone() } else { String::new() };
+        format!("{}{}", lead, *r.pick(&["1", "2", "x", "y", "{z}", "3.5"]))
+    };
+    if depth >= 3 || r.chance(1, 3) {
+        return operand(r);
+    }
+    match r.below(6) {
+        0 => format!("({})", call_soup(r, t, depth + 1)),
+        1 => format!("{} {} {}", call_soup(r, t, depth + 1), bins[r.below(bins.len())].name, call_soup(r, t, depth + 1)),
+        _ => {
+            let name = &bins[r.below(bins.len())].name;
+            let a = call_soup(r, t, depth + 1);
+            let b = call_soup(r, t, depth + 1);
+            if r.chance(1, 3) {
+                format!("{}({},{},{})", name, a, b, call_soup(r, t, depth + 1))
+            } else {
+                format!("{}({},{})", name, a, b)
+            }
+        }
+    }
+}
+
 pub fn gen(r: &mut Rng, _tier: &str, _i: usize, stats: &mut BTreeMap<String, u64>) -> String {
     let t = gen_table(r);
+    if r.chance(1, 5) {
+        // unbalanced call soup: whatever the comma rewriting does, a text whose parentheses do not
+        // balance is rejected
+        let mut s = call_soup(r, &t, 0);
+        let k = 1 + r.below(3);
+        for _ in 0..k {
+            if r.chance(3, 4) {
+                s.push(')');
+            } else {
+                s.insert(0, '(');
+            }
+        }
+        let open = s.chars().filter(|c| *c == '(').count();
+        let close = s.chars().filter(|c| *c == ')').count();
+        if open == close {
+            s.push(')');
+        }
+        *stats.entry("unbalanced_calls".to_string()).or_insert(0) += 1;
+        return format!("damage\t{}\tnum\t{}\t{}", table_to_field(&t), hex(&s), "unbalanced_calls");
+    }
     let cfg = ChainCfg {
         max_depth: 1 + r.below(4),
         max_len: *r.pick(&[1usize, 2, 3, 5]),
